@@ -9,7 +9,7 @@ command, and the laws of the statement.  Three TLC generators
   MC_Laws      every word list / every variable value up to a byte bound:
                the three quoting laws (survives quoting; $V is one word equal
                to the value; ${V@R} denotes exactly the value)
-  MC_Env       every script of <= Depth env lines over a 20-line vocabulary:
+  MC_Env       every script of <= Depth env lines over a 22-line vocabulary:
                latest wins, child environment, no re-expansion
 check the laws in every state and emit the predicted argument vectors, Getenv
 values and child environments.  harness/drivers/tokenize puts them through
@@ -250,7 +250,7 @@ def check(ctx):
             "(V unset / empty / 'p q' after x / quote / '$W' / '#' / unbalanced \"'' ${\", plus a, Va, aV for longest-name matching), the others under one; "
             "MC_Laws: every list of <= 3 words with <= %d bytes in total and every value of <= %d bytes over {a SP ' $ # V TAB \\ . { }} (%d states): quoted list, "
             "plain list, and for each value the lines $V ${V} a${V}b_$V '$V'$V $V#$V $V@R ${V@R} after env 'V=<value>'; "
-            "MC_Env: every script of <= %d env lines over a 20-line vocabulary (quoted troublemaker values, V=$W, V=${V}x, V=y W=$V) (%d scripts, each in its own "
+            "MC_Env: every script of <= %d env lines over a 22-line vocabulary (quoted troublemaker values, V=$W, V=${V}x, V=y W=$V) (%d scripts, each in its own "
             "work directory with a helper program run by exec). %d seeded random scripts (%d probe lines of arbitrary bytes, env lines interleaved) are recorded "
             "from the real engine and validated by TLC (Trace_Tokenize, 16 lanes; %d of them fixed byte for byte by the statement). "
             "non-trivial = the line contains a quote, $ or # (Getenv / child entries always); distinct = one per (environment, line) pair"
